@@ -46,9 +46,13 @@ fn slot_value(nt: u64, t: u64, n: u64, seed: u64, compressed: bool, rc: usize) -
     if !compressed {
         return pseudo(seed, (n - 1) * 4086 + 100 + (seed % 3000) as usize - 26 - rc)
     }
-    // incompressible body aimed at the middle of the window (lz4 adds about 1 byte per 255 literals), then zeros
-    let mut v = pseudo(seed, (n - 1) * 4086 + 1800 - 26 - rc);
-    v.extend(std::iter::repeat(0u8).take(6000));
+    // zeros, then an incompressible body aimed at the middle of the window (lz4 adds about 1 byte per 255 literals).
+    // (The zeros come first: snappy looks for matches at growing strides while it finds none, so zeros BEHIND 40 KB
+    // of noise are largely stored as literals and the value would take one part more than intended.)
+    // (12 000 of them: the snappy FRAME format stores a chunk uncompressed unless it shrinks below 7/8, and a value
+    // whose compressed form is not smaller is stored as it is)
+    let mut v = vec![0u8; 12_000];
+    v.extend(pseudo(seed, (n - 1) * 4086 + 1800 - 26 - rc));
     v
 }
 
